@@ -3,7 +3,7 @@ CONSTANTS
   Doc = {1, 2}
   Delegates <- Dlg2
   Threshold <- Thr2
-  LabelSets <- LS2
+  LabelSets <- LS3
   AssignSets <- AS2
   Titles = {0, 1, 9}
   Bodies = {0, 1}
@@ -20,7 +20,7 @@ CONSTANTS
   MaxRC = 0
   MaxV = 0
   MaxVC = 0
-  Reactors = {4}
+  Reactors = {}
   HeadInits <- H0
   Pushers = {}
   Variant = "code"
